@@ -47,9 +47,10 @@ func (w *world) opsLimit(sess *sessM) int {
 func (w *world) buildTemplateFor(sess *sessM, kind string) *tmpl {
 	switch kind {
 	case "too_many_ops":
-		return w.tTooManyOps(sess, w.draw("excessOperations", 1, 4))
+		excess := w.draw("excessOperations", 1, 4)
+		return w.tTooManyOps(sess, w.buildTemplate(sess.inc, pick(w, "oversizedBase", paddedBases)), excess)
 	case "max_ops":
-		return w.tMaxOps(sess)
+		return w.tMaxOps(sess, w.buildTemplate(sess.inc, pick(w, "paddedBase", paddedBases)))
 	}
 	return w.buildTemplate(sess.inc, kind)
 }
@@ -84,10 +85,10 @@ func (w *world) tracePadding(inc *incM, n int) ([]nfsv4.NfsArgop4, string) {
 	return ops, desc
 }
 
-// tTooManyOps: the operations of an ordinary request followed by padding,
-// excess operations more than the session allows. It is never executed.
-func (w *world) tTooManyOps(sess *sessM, excess int) *tmpl {
-	base := w.buildTemplate(sess.inc, pick(w, "oversizedBase", paddedBases))
+// tTooManyOps: the operations of an ordinary request (base) followed by
+// padding, excess operations more than the session allows. It is never
+// executed.
+func (w *world) tTooManyOps(sess *sessM, base *tmpl, excess int) *tmpl {
 	total := w.opsLimit(sess) - 1 + excess
 	t := &tmpl{kind: "too_many_ops", data: map[string]any{}}
 	t.ops = append([]nfsv4.NfsArgop4(nil), base.ops...)
@@ -100,13 +101,12 @@ func (w *world) tTooManyOps(sess *sessM, excess int) *tmpl {
 	return t
 }
 
-// tMaxOps: an ordinary request padded with PUTROOTFH and GETFH to exactly
+// tMaxOps: an ordinary request (t) padded with PUTROOTFH and GETFH to exactly
 // the number of operations the session allows. The template is changed in
 // place (its closures refer to it), like withIllegalOp does: the model's
 // view of its own operations stays what it was; if all of them can succeed
 // the padding is reached, and all of it succeeds.
-func (w *world) tMaxOps(sess *sessM) *tmpl {
-	t := w.buildTemplate(sess.inc, pick(w, "paddedBase", paddedBases))
+func (w *world) tMaxOps(sess *sessM, t *tmpl) *tmpl {
 	nBase := len(t.ops)
 	nPad := w.opsLimit(sess) - 1 - nBase
 	if nPad <= 0 {
@@ -177,7 +177,7 @@ func (w *world) tMaxOps(sess *sessM) *tmpl {
 // next sequence ID.
 func (w *world) seqActionOn(sess *sessM, slot uint32, kind string, forcePark bool) *call {
 	t := w.buildTemplateFor(sess, kind)
-	if !forcePark && w.pct("dropPutFH", 3) {
+	if !forcePark && t.kind != "too_many_ops" && w.pct("dropPutFH", 3) {
 		t = w.withoutFileHandle(t)
 	}
 	plan := map[string]bool{}
@@ -188,7 +188,11 @@ func (w *world) seqActionOn(sess *sessM, slot uint32, kind string, forcePark boo
 		site := pick(w, "faultSite", t.faultOK)
 		plan["fault:"+site+":"+pick(w, "faultStatus", faultKinds[site])] = true
 	}
-	c := w.sendSeq(sess, slot, sess.slots[slot].lastSeq+1, "new", t, w.pct("cachethis", w.p.cachePct), plan, nil)
+	class := "new"
+	if t.kind == "too_many_ops" {
+		class = "too_many_ops"
+	}
+	c := w.sendSeq(sess, slot, sess.slots[slot].lastSeq+1, class, t, w.pct("cachethis", w.p.cachePct), plan, nil)
 	w.learnSessionFate(c)
 	return c
 }
